@@ -203,14 +203,21 @@ def pred_tempo(case, ctx):
     return case["est"][0] != case["est"][1]
 
 
-def _bijection(labels, seed, tag):
+SHORT_NAMES = ["n", "no", "non", "none", "nan", "null", "x", "k", "m", "silence", "end", "0", "1", "-1", "t_min", "a b"]
+
+
+def _bijection(labels, seed, tag, short=False):
     rs = np.random.RandomState(seed)
     names = {}
     out = []
+    pool = list(rs.permutation(SHORT_NAMES)) if short else None
     for l in labels:
         k = l.lower()
         if k not in names:
-            names[k] = "%ssection_%d%s" % (tag, len(names), "xyz"[len(names) % 3])   # long common prefix: truncating or partially comparing names would merge them
+            if short and len(names) < len(pool):
+                names[k] = str(pool[len(names)])
+            else:
+                names[k] = "%ssection_%d%s" % (tag, len(names), "xyz"[len(names) % 3])   # long common prefix: truncating or partially comparing names would merge them
         nm = names[k]
         out.append(nm.upper() if rs.rand() < 0.4 else nm)
     return out
@@ -221,6 +228,16 @@ def labels_case(draw):
     c = draw(gs.segmentation_pair())
     c["seed"] = draw(st.integers(0, 10 ** 6))
     c["marginal"] = draw(st.booleans())
+    # an annotation may leave a stretch unlabelled: drop one interior segment (first start and last end stay in place)
+    for side in ("ref", "est"):
+        iv = c[side + "_iv"]
+        if len(iv) >= 3 and draw(st.integers(0, 3)) == 0:
+            k = draw(st.integers(1, len(iv) - 2))
+            c[side + "_iv"] = iv[:k] + iv[k + 1:]
+            c[side + "_lab"] = c[side + "_lab"][:k] + c[side + "_lab"][k + 1:]
+            c["gap"] = True
+    # new names: long ones with a common prefix, or short everyday ones (incl. words a library might use as a sentinel)
+    c["short_names"] = draw(st.booleans())
     return c
 
 
@@ -228,14 +245,26 @@ def pred_segment_labels(case, ctx):
     a, al, b, bl, fs = _a(case["ref_iv"]), case["ref_lab"], _a(case["est_iv"]), case["est_lab"], case["frame_size"]
     if int(np.floor(case["ref_iv"][-1][1] / fs)) < 1:
         return False
-    al2, bl2 = _bijection(al, case["seed"], "P"), _bijection(bl, case["seed"] + 1, "Q")
+    al2, bl2 = _bijection(al, case["seed"], "P", case.get("short_names", False)), _bijection(bl, case["seed"] + 1, "Q", case.get("short_names", False))
+    if case.get("gap"):
+        ctx.event("annotation_with_an_unlabelled_gap")
+    if case.get("short_names"):
+        ctx.event("short_everyday_names")
     for fn in (segment.pairwise, segment.rand_index, segment.ari, segment.mutual_information, segment.nce, segment.vmeasure):
         kw = {"frame_size": fs}
         if fn in (segment.pairwise, segment.nce, segment.vmeasure):
             kw["beta"] = case["beta"]
         if fn is segment.nce:
             kw["marginal"] = case["marginal"]
-        _same("segment.%s (label bijection)" % fn.__name__, ctx.call(fn, a, al, b, bl, **kw), ctx.call(fn, a, al2, b, bl2, **kw), case)
+        try:
+            _same("segment.%s (label bijection)" % fn.__name__, ctx.call(fn, a, al, b, bl, **kw), ctx.call(fn, a, al2, b, bl2, **kw), case)
+        except Violation as v:
+            # KF-15: frames of an unlabelled gap carry the label None, which index_labels turns into the string 'none' - the same cluster
+            # as a segment the user named "none" / "None".  Exactly that coincidence is known; any other name must not matter.
+            if case.get("gap") and any(x.lower() == "none" for x in list(al) + list(bl) + al2 + bl2):
+                ctx.known("c08.segment:label_named_none_merges_with_unlabelled_gap", str(v)[:200])
+                return False
+            raise
     return len(al) + len(bl) >= 3
 
 
